@@ -1,6 +1,7 @@
 /-
 Model of `vouched_time/src/atomic_base_time.rs` (`AtomicBaseTime::{snapshot, update,
-try_update, advance_once}` and `BaseTime::{snapshot, update}`).
+try_update, advance_once, sequence, new}` and `BaseTime::{snapshot, update, new}`;
+`Default::default()` is `new()`: the machines have one initial state, `init`).
 
 A thread is `(pc, locals)`; every step performs exactly one atomic access or one
 lock operation, with the location, the kind and the ORDERING the Rust code uses.
@@ -53,7 +54,7 @@ inductive Act where
 
 /-- Program counters.  `s*`: `snapshot`; `u*`: the lock loop of `update`; `t*`:
 `try_update`; `a*`: `advance_once` (+ `BaseTime::snapshot`, `BaseTime::update`) and the
-guard drop that ends `update` / `try_update`. -/
+guard drop that ends `update` / `try_update`; `q*`: `sequence` (one relaxed load). -/
 inductive Pc where
   | idle
   | sSeq        -- let mut sequence = self.sequence.load(Acquire)
